@@ -131,8 +131,17 @@ theorem readHunks_ro (b : Nat) (ns : List Nat) (after last : Option Str) :
   | nil => unfold readHunks; allops
   | cons n ns ih => unfold readHunks; allops [readHunk_ro, ih]
 
+theorem hunkLengths_go_ro (b : Nat) (ds : List Nat) (acc : List (Nat × Bool)) :
+    AllOps ReadOnly (hunkLengths.go b ds acc) := by
+  induction ds generalizing acc with
+  | nil => unfold hunkLengths.go; allops
+  | cons d ds ih => unfold hunkLengths.go; allops [ih]
+
+theorem hunkLengths_ro (b : Nat) : AllOps ReadOnly (hunkLengths b) := by
+  unfold hunkLengths; allops [hunkLengths_go_ro]
+
 theorem checkIndexHunks_ro (b : Nat) : AllOps ReadOnly (checkIndexHunks b) := by
-  unfold checkIndexHunks; allops [hunksAvailable_ro]
+  unfold checkIndexHunks; allops [hunkLengths_ro]
 
 theorem readBand_ro (b : Nat) (last : Option Str) : AllOps ReadOnly (readBand b last) := by
   unfold readBand; allops [bandOpen_ro, hunksAvailable_ro, checkIndexHunks_ro, readHunks_ro]
